@@ -381,6 +381,29 @@ func (w *World) contractsFor(prop string) []*Contract {
 					found = true
 				}
 			}
+			for _, cl := range l.BackEdge {
+				if hasProp(cl.Props, prop) {
+					found = true
+				}
+			}
+		}
+		// a clause tagged with a property counts for that property wherever it is written: call-site
+		// clauses, receive-site clauses and preconditions (checked at the callers, which are selected
+		// through their own obligations) included - a tag that the prop line does not repeat must not
+		// make the clause invisible
+		for _, cls := range c.Before {
+			for _, cl := range cls {
+				if hasProp(cl.Props, prop) {
+					found = true
+				}
+			}
+		}
+		for _, cls := range c.RecvObl {
+			for _, cl := range cls {
+				if hasProp(cl.Props, prop) {
+					found = true
+				}
+			}
 		}
 		if prop == "C19" && w.sweep[c.Name] {
 			found = true
